@@ -264,11 +264,25 @@ Proof.
   rewrite E2. exists c2. split; [|assumption]. destruct (p_link None m d (2 * y)); reflexivity.
 Qed.
 
+Lemma relay_ex : forall Un c s m o d bare g x, faithful Un -> sound Un c ->
+  In s Un -> In m Un -> In o Un -> In d Un ->
+  exists c', m_relay c s m o d bare g x = (p_relay s m o d bare g x, c') /\ sound Un c'.
+Proof.
+  intros Un c s m o d bare g x HF HS Hs Hm Ho Hd. unfold m_relay, p_relay.
+  destruct (link_ex Un c None s m x HF HS) as (c1 & E1 & S1); auto; [intros k' Hk; discriminate|].
+  rewrite E1. clear E1.
+  destruct (p_link None s m x) as [|?|? ? ?|us cs xs u cv y|e]; try (eexists; split; [reflexivity|assumption]).
+  destruct (link_ex Un c1 (if bare then None else Some m) o d (g * y) HF S1) as (c2 & E2 & S2); auto.
+  { intros k' Hk. destruct bare; [discriminate|]. inversion Hk; subst; auto. }
+  rewrite E2. exists c2. split; [|assumption].
+  destruct (p_link (if bare then None else Some m) o d (g * y)); reflexivity.
+Qed.
+
 Lemma step_ex : forall Un c o, faithful Un -> sound Un c -> incl (op_ents o) Un ->
   exists c', step c o = (pure_res o, c') /\ sound Un c'.
 Proof.
   intros Un c o HF HS HI.
-  destruct o as [|a b|a b|a b|a b|a b chk x|a b x|k a b x|k a d b x|f a b x|s m d x]; cbn [step pure_res].
+  destruct o as [|a b|a b|a b|a b|a b chk x|a b x|k a b x|k a d b x|f a b x|s m d x|s m o d bare g x]; cbn [step pure_res].
   - exists []. split; [reflexivity|apply sound_nil].
   - assert (Ha : In a Un) by (apply HI; simpl; auto). assert (Hb : In b Un) by (apply HI; simpl; auto).
     use_query HF HS Ha Hb c1 E S1. eauto.
@@ -292,6 +306,7 @@ Proof.
     + apply HI. destruct k; simpl; auto 6.
   - apply fill_ex; auto; apply HI; simpl; auto.
   - apply chain_ex; auto; apply HI; simpl; auto.
+  - apply relay_ex; auto; apply HI; simpl; auto.
 Qed.
 
 (** Main refinement: from any sound memo (in particular the empty one), for every session of
@@ -660,4 +675,49 @@ Proof.
     do 4 eexists. split; [reflexivity|]. split.
     + now rewrite EY.
     + rewrite EZ. apply convert_proper. now rewrite EY.
+Qed.
+
+(** * A relaying component with its own units on both sides *)
+
+Theorem relay_exact : forall Un s m o d bare g x,
+  faithful Un -> (forall u, In u Un -> wf (uu u)) -> offsets_ok Un ->
+  In s Un -> In m Un -> In o Un -> In d Un ->
+  compatible (uu s) (uu m) = true -> compatible (uu o) (uu d) = true ->
+  (bare = false -> compatible (uu m) (uu o) = true) ->
+  exists us cs xs cv z, p_relay s m o d bare g x = RLink us cs xs (cid d) cv z
+    /\ z == convert (uu (if bare then o else m)) (uu d) (g * convert (uu s) (uu m) x).
+Proof.
+  intros Un s m o d bare g x HF HW HO Hs Hm Ho Hd Hsm Hod Hmo. unfold p_relay.
+  destruct (link_exact Un s s m x HF HW HO Hs Hs Hm (compatible_refl _) Hsm)
+    as (_ & (cv & y & E & EY)). rewrite E.
+  destruct bare.
+  - destruct (link_exact Un o o d (g * y) HF HW HO Ho Ho Hd (compatible_refl _) Hod)
+      as (_ & (cv2 & z & E2 & EZ)). rewrite E2.
+    do 5 eexists. split; [reflexivity|]. rewrite EZ. apply convert_proper. now rewrite EY.
+  - destruct (link_exact Un m o d (g * y) HF HW HO Hm Ho Hd (Hmo eq_refl) Hod)
+      as ((us & cs & xs & cv2 & z & E2 & EZ) & _). rewrite E2.
+    do 5 eexists. split; [reflexivity|]. rewrite EZ. apply convert_proper. now rewrite EY.
+Qed.
+
+Theorem relay_refuse : forall Un s m o d bare g x,
+  faithful Un -> (forall u, In u Un -> wf (uu u)) -> offsets_ok Un ->
+  In s Un -> In m Un -> In o Un -> In d Un ->
+  (compatible (uu s) (uu m) = false \/ compatible (uu o) (uu d) = false ->
+     p_relay s m o d bare g x = RErr ErrMeta)
+  /\ (compatible (uu s) (uu m) = true -> compatible (uu o) (uu d) = true ->
+      bare = false -> compatible (uu m) (uu o) = false ->
+      p_relay s m o d bare g x = RErr ErrData).
+Proof.
+  intros Un s m o d bare g x HF HW HO Hs Hm Ho Hd. split.
+  - intros H. unfold p_relay. destruct (compatible (uu s) (uu m)) eqn:Esm.
+    + destruct H as [H|H]; [discriminate|].
+      destruct (link_exact Un s s m x HF HW HO Hs Hs Hm (compatible_refl _) Esm)
+        as (_ & (cv & y & E & _)). rewrite E.
+      unfold p_link. rewrite H. reflexivity.
+    + unfold p_link. rewrite Esm. reflexivity.
+  - intros Hsm Hod Hb Hmo. subst bare. unfold p_relay.
+    destruct (link_exact Un s s m x HF HW HO Hs Hs Hm (compatible_refl _) Hsm)
+      as (_ & (cv & y & E & _)). rewrite E.
+    unfold p_link. rewrite Hod, (compatible_sym (uu d)), Hod. cbn [negb].
+    unfold p_prepare. rewrite Hmo. reflexivity.
 Qed.
